@@ -1,13 +1,15 @@
 #!/bin/bash
-# usage: myseed.sh <seed-dir-name> [tier]  — like seedrun.sh, but runs THIS worktree's check and copies the untracked c01d hook
-S=$1; TIER=${2:-quick}
-P=/work/s01d/seeded/$S/patch.diff
-PROP=$(echo $S | cut -d- -f1)
-WT=/work/s01d-seed-$$
+# usage: myseed.sh <seeded-dir-name|patch-file> [seed]  — runs THIS worktree's check against a scratch worktree of /repo
+# with the untracked hook file copied in and the patch applied.
+set -u
+S=$1; SEED=${2:-1}
+if [ -d /work/s12e/seeded/$S ]; then P=/work/s12e/seeded/$S/patch.diff; else P=$S; fi
+WT=/work/s12e-seed-$$
 git -C /repo worktree add -q --detach $WT HEAD || exit 2
 trap 'git -C /repo worktree remove --force $WT >/dev/null 2>&1; rm -rf $WT' EXIT
-cp /repo/verif_export_c01d.go $WT/
+cp /repo/verif_export_c12e.go $WT/
 git -C $WT apply $P || { echo "PATCH DOES NOT APPLY: $P"; exit 2; }
-if [ -n "$FIXDIFF" ]; then git -C $WT apply $FIXDIFF || echo "FIX DOES NOT APPLY"; fi
-cd /work/s01d
-VERIF_REPO=$WT ./check $PROP $TIER 2>&1 | grep -v '^KNOWN-FINDING' | tail -n 3 | cut -c1-300 | sed "s|^|[$S] |"
+cd /work/s12e
+export GOFLAGS=-mod=mod GOPROXY=off GOSUMDB=off GOTOOLCHAIN=local
+VERIF_SEED=$SEED VERIF_REPO=$WT ./check C12 quick 2>&1 | grep -v '^KNOWN-FINDING' | tail -n 3 | cut -c1-400 | sed "s|^|[$S] |"
+git -C /work/s12e checkout -- lean/Gen 2>/dev/null
